@@ -14,7 +14,7 @@ def translate(ctx):
 
 def sizes(ctx):
     # n_random, truncation stride, mutations per message, sweep budget per message, protected cases
-    return (900, 3, 60, 260, 500) if ctx.quick() else (40000, 1, 1500, 4000, 30000)
+    return (700, 4, 45, 180, 350) if ctx.quick() else (40000, 1, 1500, 4000, 30000)
 
 
 def correspond(ctx):
@@ -245,7 +245,7 @@ CHECK = core.Check(
     'C06', CLUSTER, 'Props/C06.v', translate=translate, correspond=correspond, oracle=oracle, replay=replay,
     regressions=regressions, deps=('lib',),
     rule='malformed stream: random bytes (raw, behind a valid header, random generic-header chains); every '
-         'truncation (stride 3 quick / 1 thorough) and 1-2 byte mutations of authentic IKE_SA_INIT, IKE_AUTH, '
+         'truncation (stride 4 quick / 1 thorough) and 1-2 byte mutations of authentic IKE_SA_INIT, IKE_AUTH, '
          'CREATE_CHILD_SA and INFORMATIONAL messages; length fields at every nesting level (payload, proposal, '
          'transform, attribute, selector) set to {0..5, exact-1, exact, exact+1, 0xFFFF} combined with next-payload '
          'octets {0, known, unknown, SK}; inner chains mutated the same way then re-encrypted and re-MACed with the '
